@@ -119,7 +119,10 @@ pub fn parse_contracts(src: &str) -> Result<Contracts, String> {
             if out.fns.contains_key(&key) {
                 return Err(format!("line {}: duplicate contract for {}", ln, key));
             }
-            out.fns.insert(key.clone(), FnContract::default());
+            // `fn <key> @feature` / `fn <key> @!feature`: variant of the contract for one cfg set
+            let mut fc = FnContract::default();
+            if let Some((_, f)) = key.rsplit_once(" @") { fc.only_feature = Some(f.trim().to_string()); }
+            out.fns.insert(key.clone(), fc);
             cur = Some(key);
         } else if indent == 2 {
             directives.push((ln, cur.clone(), t.trim().to_string()));
